@@ -106,6 +106,10 @@ func Close(site string, ch any) {
 		s.mu.Unlock()
 	}
 	v.Close()
+	// a scheduling point right after the close: a receiver may see the closed channel before the
+	// closing task does anything else (its next step may be a synchronisation inside an
+	// uninstrumented library, context.CancelFunc for one, which the scheduler would not see)
+	Yield(site)
 }
 
 // ---- perturb mode (engine R) -------------------------------------------------
